@@ -9,7 +9,9 @@
 
     Two systems:
     - [l_*]: no dask.distributed client; all threads share one [mpu] object and
-      the process-wide lock of [_mpu_local_lock] (_s3.py:269-276);
+      the process-wide lock of [_mpu_local_lock] (_s3.py:269-276), including how that
+      lock comes into being on first use (_s3.py:23-28: registry read, [Lock()],
+      atomic [dict.setdefault]);
     - [c_*]: a distributed client is present; every worker has its own copy of
       [mpu] (its own [uploadId]), coordination goes through a global
       [distributed.Variable] and a global [distributed.Lock] (_s3.py:278-304).
@@ -42,7 +44,8 @@ Inductive label :=
 | LGet | LSet            (* read / write of mpu.uploadId *)
 | LAcq | LRel            (* lock *)
 | LCreate | LUpload | LComplete   (* S3 client calls *)
-| LVarGet | LVarSet | LVarDel.    (* distributed.Variable *)
+| LVarGet | LVarSet | LVarDel     (* distributed.Variable *)
+| LRegGet | LNewLock | LRegSet.   (* process-wide lock registry [_state]: read, Lock(), setdefault *)
 
 Definition op_ok (o : op) : Prop := match o with OWrite _ => True | OFinal n => 0 < n end.
 Definition opk (o : op) : bool := match o with OWrite _ => true | OFinal _ => false end.
@@ -68,7 +71,10 @@ Definition count_creates (log : list call) : nat :=
 
 Inductive lpc :=
 | LpStarted              (* :265  if mpu.started                          [get] *)
-| LpAcquire              (* :271  with _mpu_local_lock():                 [acquire] *)
+| LpRegGet               (* :24   _mpu_local_lock: _state.get(k)          [registry read] *)
+| LpNewLock              (* :28   Lock()                                  [lock creation] *)
+| LpRegSet               (* :28   _state.setdefault("mpu_lock", <new>)    [registry write, atomic] *)
+| LpAcquire              (* :271  with <the registered lock>:             [acquire] *)
 | LpRecheck              (* :274  not mpu.started, lock held              [get] *)
 | LpAssertInit           (* :111  assert self.uploadId == ""              [get] *)
 | LpCreate               (* :114  s3.create_multipart_upload              [call] *)
@@ -81,7 +87,11 @@ Inductive lpc :=
 | LpErr (e : err).
 
 Record lthread := mkLT { l_pc : lpc; l_cur : op; l_rest : list op }.
-Record lshared := mkLS { l_uid : Z; l_lock : option nat; l_creates : nat; l_log : list call }.
+(** [l_reg]: the process-wide registry [_state] already holds the lock.  [dict.setdefault]
+    is atomic in CPython (oracle contract): whichever thread stores first, every thread gets
+    that one lock back, so the model has a single lock [l_lock]; a lock object created by a
+    thread that lost the registration is simply dropped. *)
+Record lshared := mkLS { l_uid : Z; l_lock : option nat; l_creates : nat; l_log : list call; l_reg : bool }.
 Definition lstate := (lshared * list lthread)%type.
 
 (** start the next call of the thread's program; [finalise([])] fails at once (:311) *)
@@ -95,8 +105,9 @@ Definition l_load (ops : list op) : lthread :=
       end
   end.
 
-Definition l_init (progs : list (list op)) : lstate :=
-  (mkLS 0 None 0%nat [], map l_load progs).
+(** [reg0]: the lock has been registered by an earlier use in this process *)
+Definition l_init (reg0 : bool) (progs : list (list op)) : lstate :=
+  (mkLS 0 None 0%nat [] reg0, map l_load progs).
 
 Section Local.
   Variable new_id : nat -> Z.
@@ -106,27 +117,30 @@ Section Local.
 
   Definition l_step1 (t : nat) (sh : lshared) (th : lthread) : option (label * lshared * lthread) :=
     let goto pc := mkLT pc (l_cur th) (l_rest th) in
-    let '(mkLS uid lock creates log) := sh in
+    let '(mkLS uid lock creates log reg) := sh in
     match l_pc th with
-    | LpStarted => Some (LGet, sh, goto (if uid =? 0 then LpAcquire else LpBodyAssert))
+    | LpStarted => Some (LGet, sh, goto (if uid =? 0 then LpRegGet else LpBodyAssert))
+    | LpRegGet => Some (LRegGet, sh, goto (if reg then LpAcquire else LpNewLock))
+    | LpNewLock => Some (LNewLock, sh, goto LpRegSet)
+    | LpRegSet => Some (LRegSet, mkLS uid lock creates log true, goto LpAcquire)
     | LpAcquire =>
         match lock with
-        | None => Some (LAcq, mkLS uid (Some t) creates log, goto (if recheck then LpRecheck else LpAssertInit))
+        | None => Some (LAcq, mkLS uid (Some t) creates log reg, goto (if recheck then LpRecheck else LpAssertInit))
         | Some _ => None
         end
     | LpRecheck => Some (LGet, sh, goto (if uid =? 0 then LpAssertInit else LpRelease None))
     | LpAssertInit => Some (LGet, sh, goto (if uid =? 0 then LpCreate else LpRelease (Some (EAssert 111))))
     | LpCreate =>
         let id := new_id creates in
-        Some (LCreate, mkLS uid lock (S creates) (KCreate id :: log), goto (LpStore id))
-    | LpStore id => Some (LSet, mkLS id lock creates log, goto (LpRelease None))
+        Some (LCreate, mkLS uid lock (S creates) (KCreate id :: log) reg, goto (LpStore id))
+    | LpStore id => Some (LSet, mkLS id lock creates log reg, goto (LpRelease None))
     | LpRelease e =>
-        Some (LRel, mkLS uid None creates log,
+        Some (LRel, mkLS uid None creates log reg,
               match e with None => goto LpBodyAssert | Some e => goto (LpErr e) end)
     | LpBodyAssert => Some (LGet, sh, goto (if uid =? 0 then LpErr (EAssert 121) else LpBodyRead))
     | LpBodyRead => Some (LGet, sh, goto (LpBodyCall uid))
     | LpBodyCall id =>
-        Some (body_label (l_cur th), mkLS uid lock creates (body_call (l_cur th) id :: log), l_load (l_rest th))
+        Some (body_label (l_cur th), mkLS uid lock creates (body_call (l_cur th) id :: log) reg, l_load (l_rest th))
     | LpDone | LpErr _ => None
     end.
 
@@ -155,9 +169,9 @@ Section Local.
         end
     end.
 
-  Inductive l_reach (progs : list (list op)) : lstate -> Prop :=
-  | l_reach_init : l_reach progs (l_init progs)
-  | l_reach_step s t lb s' : l_reach progs s -> l_step s t = Some (lb, s') -> l_reach progs s'.
+  Inductive l_reach (reg0 : bool) (progs : list (list op)) : lstate -> Prop :=
+  | l_reach_init : l_reach reg0 progs (l_init reg0 progs)
+  | l_reach_step s t lb s' : l_reach reg0 progs s -> l_step s t = Some (lb, s') -> l_reach reg0 progs s'.
 End Local.
 
 Definition l_finished (th : lthread) : bool :=
